@@ -21,6 +21,7 @@ func init() {
 			Assumptions: []string{"encoding/asn1, cryptobyte, crypto/ecdh do not panic on arbitrary input and Bytes() has the documented fixed length"},
 			Trusted:     []string{"go/packages", "go/types", "go/ssa", "crypto/x509 source as oracle"},
 			RuleDoc: map[string]string{
+				"R9.state":    "no memory of earlier calls: on the call tree only frozen package-level variables are touched (known exceptions listed with reasons), and no package-level object is handed out",
 				"R1.bounds":   "index/slice/assertion obligations of the parsers and of ModHex",
 				"R1.nil":      "nil-dereference obligations (use before error check)",
 				"R3.trailing": "trailing data refused; RSA arm lenient on parameters but strict on modulus/exponent",
@@ -46,6 +47,7 @@ func c16Entries(w *World) []*ssa.Function {
 }
 
 func runC16(c *Ctx) {
+	stateRule(c, "R9.state", []*ssa.Function{c.w.Func(attestPkg, "ParseCertificate"), c.w.Func(attestPkg, "ModHex"), c.w.Func("agent/utils", "ParsePEMCertificates")}, knownState)
 	w := c.w
 	for _, n := range []string{"ParseCertificate", "ModHex"} {
 		if w.Func(attestPkg, n) == nil {
